@@ -397,35 +397,48 @@ func buildUpdatedFields(input *TaskInput) []string {
 func applySetUpdates(dir string, opts GlobalOptions, id string, updates map[string]string, agentID string, quiet bool) error {
 	lockPath := filepath.Join(dir, "lock")
 	eventsPath := getEventsPath(dir)
+	repoDir := filepath.Dir(dir)
 
-	// Handle result.path + result.summary (requires file I/O before lock)
+	// result.path and result.summary must come as a pair
 	resultPath, hasPath := updates["result.path"]
 	resultSummary, hasSummary := updates["result.summary"]
-	if hasPath || hasSummary {
+	hasResult := hasPath || hasSummary
+	if hasResult {
 		if !hasPath {
 			return errors.New("result.summary requires result.path=")
 		}
 		if !hasSummary {
 			return errors.New("result.path requires result.summary=")
 		}
-		if err := writeResultEvent(dir, opts, id, resultSummary, resultPath); err != nil {
-			return err
-		}
-		delete(updates, "result.path")
-		delete(updates, "result.summary")
-		// If no other updates, we're done
-		if len(updates) == 0 {
-			if !quiet {
-				fmt.Println(id)
-			}
-			return nil
-		}
 	}
 
+	// The result and all other fields are written in one lock section with one
+	// append, so a failing check leaves nothing behind.
 	return withLock(lockPath, syscall.LOCK_EX, func() error {
 		graph, err := loadGraph(dir)
 		if err != nil {
 			return err
+		}
+
+		var resultEvents []Event
+		if hasResult {
+			resultEvent, err := buildResultEvent(graph, repoDir, id, resultSummary, resultPath)
+			if err != nil {
+				return err
+			}
+			resultEvents = append(resultEvents, resultEvent)
+			delete(updates, "result.path")
+			delete(updates, "result.summary")
+			// If no other updates, we're done
+			if len(updates) == 0 {
+				if err := appendEvents(eventsPath, resultEvents); err != nil {
+					return err
+				}
+				if !quiet {
+					fmt.Println(id)
+				}
+				return nil
+			}
 		}
 
 		if _, ok := graph.Tombstones[id]; ok {
@@ -474,7 +487,8 @@ func applySetUpdates(dir string, opts GlobalOptions, id string, updates map[stri
 			return fmt.Errorf("unknown keys: %s", strings.Join(unknown, ", "))
 		}
 
-		if err := appendEvents(eventsPath, events); err != nil {
+		// Result event (if any) first, then the field updates
+		if err := appendEvents(eventsPath, append(resultEvents, events...)); err != nil {
 			return err
 		}
 		if !quiet {
